@@ -158,6 +158,10 @@ impl Scenario for Hs {
         v.push(json!({"stage": "open", "b": "normal-then-heartbeat", "timeout": true, "auth": "plain", "info": false}));
         v.push(json!({"stage": "open", "b": "normal-then-blocked", "timeout": true, "auth": "plain", "info": false}));
         v.push(json!({"stage": "open", "b": "close-eof", "timeout": true, "auth": "plain", "info": false}));
+        // a transport that takes a few bytes per write call and never says would-block
+        for chunk in [1usize, 5, 64] {
+            v.push(json!({"stage": "open", "b": "normal", "timeout": true, "auth": "plain", "info": false, "chunk": chunk}));
+        }
         // option variations on the good path and on the credential-rejection path
         for auth in ["plain", "external", "custom"] {
             for info in [false, true] {
@@ -222,6 +226,9 @@ impl Scenario for Hs {
         if p["faults"] == true {
             use vh::sim::world::FaultKind;
             cfg.faults = vec![FaultKind::ReadEof, FaultKind::ReadErr, FaultKind::WriteErr];
+        }
+        if let Some(c) = p["chunk"].as_u64() {
+            cfg.write_chunk = Some(c as usize);
         }
         if let Some(k) = p["cut"].as_u64() {
             cfg.deliver_cuts = false;
